@@ -9,7 +9,7 @@ for wt in "$@"; do
   [ -f $wt/seed.patch ] || { echo "$wt: no seed.patch"; continue; }
   pid=$(python3 -c "import json;print(json.load(open('$wt/seed.json'))['property'])" 2>/dev/null) || { echo "$wt: no seed.json"; continue; }
   n=$(ls -d seeded/$pid-* seeded/rejected/$pid-* 2>/dev/null | wc -l)
-  letter=$(python3 -c "print('abcdefghijklmnopqrstuvwxyz'[$n])")
+  letter=$(python3 -c "n=$n; print('abcdefghijklmnopqrstuvwxyz'[n] if n < 26 else 'z' + 'abcdefghijklmnopqrstuvwxyz'[n - 26])")
   name=$pid-$letter
   (cd /repo && git apply $wt/seed.patch) || { echo "$wt: patch does not apply"; continue; }
   o=$(cd /tmp/verif_head && ./check $pid quick 2>&1); rc=$?
